@@ -208,9 +208,52 @@ def revMax (m : Nat) (n : Node) : Nat :=
 
 def maxRevIdNodes (ns : List Node) : Nat := ns.foldl revMax 0
 
-/-- `_scan_existing_ids`: the main part and the header / footer parts the engine can reach -/
+/-- rest of the string behind the first occurrence of `pat` -/
+def afterSub (pat : Str) : Str → Option Str
+  | [] => if pat.isEmpty then some [] else none
+  | c :: s => if pat.isPrefixOf (c :: s) then some ((c :: s).drop pat.length) else afterSub pat s
+
+/-- numeric `w:id`s of `w:ins` / `w:del` elements inside an opaque piece of XML (paragraph-mark revisions in
+`w:pPr/w:rPr`, tracked rows in `w:trPr`, …): the engine's id scan (`.//w:ins`, `.//w:del`) sees those too -/
+def xmlRevIds : Str → List Nat
+  | [] => []
+  | c :: rest =>
+    let s := c :: rest
+    let here : List Nat :=
+      if "<w:ins ".toList.isPrefixOf s || "<w:del ".toList.isPrefixOf s then
+        match afterSub "w:id=\"".toList (s.takeWhile (· ≠ '>')) with
+        | some v => match strNat? (v.takeWhile (· ≠ '"')) with | some k => [k] | none => []
+        | none => []
+      else []
+    here ++ xmlRevIds rest
+
+def nodeXml : Node → Str
+  | .other x => x
+  | .ins _ ch => ch.flatMap fun | .other x => x | _ => []
+  | _ => []
+
+mutual
+  /-- the opaque XML of a story: paragraph / table / row / cell properties, unknown elements -/
+  def opaqueBlocks : List Block → Str
+    | [] => []
+    | .para p :: rest => p.ppr ++ p.nodes.flatMap nodeXml ++ opaqueBlocks rest
+    | .table pr g rows :: rest => pr ++ g ++ opaqueRows rows ++ opaqueBlocks rest
+    | .other x :: rest => x ++ opaqueBlocks rest
+  def opaqueRows : List Row → Str
+    | [] => []
+    | .mk pr cells :: rest => pr ++ opaqueCells cells ++ opaqueRows rest
+  def opaqueCells : List Cell → Str
+    | [] => []
+    | .mk pr _ _ bs :: rest => pr ++ opaqueBlocks bs ++ opaqueCells rest
+end
+
+def maxNat (l : List Nat) : Nat := l.foldl max 0
+
+/-- `_scan_existing_ids`: the main part and the header / footer parts the engine can reach; marks that are
+paragraph children and marks inside opaque properties alike -/
 def scanRevIds (d : Document) : Nat :=
-  (docParts d).foldl (fun m bs => max m (maxRevIdNodes (allNodesBlocks bs))) 0
+  max ((docParts d).foldl (fun m bs => max m (maxRevIdNodes (allNodesBlocks bs))) 0)
+      (maxNat ((docParts d).flatMap fun bs => xmlRevIds (opaqueBlocks bs)))
 
 /-- `_get_next_comment_id` -/
 def nextCommentId (d : Document) : Nat :=
@@ -495,6 +538,31 @@ def trackDelete (s : Sess) (r : RunRef) : Sess × Rev :=
 
 def insertNodesAt (ns : List Node) (idx : Nat) (new : List Node) : List Node := ns.take idx ++ new ++ ns.drop idx
 
+/-- drop the self-closing `<w:ins …/>` / `<w:del …/>` elements of a piece of XML (`fuel` bounds the scan) -/
+def dropMarks : Nat → Str → Str
+  | 0, s => s
+  | _, [] => []
+  | fuel + 1, c :: rest =>
+    let s := c :: rest
+    if "<w:ins ".toList.isPrefixOf s || "<w:del ".toList.isPrefixOf s then
+      match afterSub "/>".toList s with
+      | some r => dropMarks fuel r
+      | none => c :: dropMarks fuel rest
+    else c :: dropMarks fuel rest
+
+/-- remove every occurrence of `pat` -/
+def removeSub (pat : Str) : Nat → Str → Str
+  | 0, s => s
+  | _, [] => []
+  | fuel + 1, c :: rest =>
+    if !pat.isEmpty && pat.isPrefixOf (c :: rest) then removeSub pat fuel ((c :: rest).drop pat.length)
+    else c :: removeSub pat fuel rest
+
+/-- `_copy_paragraph_properties`: a new paragraph modelled on an existing one does not take over the tracked
+change of that paragraph's mark (its id would be duplicated) -/
+def copyPPr (ppr : Str) : Str :=
+  removeSub "<w:rPr></w:rPr>".toList ppr.length (dropMarks ppr.length ppr)
+
 /-- paragraphs created for the lines of a multi-line insertion (style of each line, runs, one id each) -/
 def lineParas (s : Sess) (lines : List Str) (style : Option Run) (suppress : Bool) (ppr : Para) :
     Sess × List Block :=
@@ -506,7 +574,7 @@ def lineParas (s : Sess) (lines : List Str) (style : Option Run) (suppress : Boo
       let (s1, rev) := s0.newRev
       let p : Para := match lvl with
         | some l => { style := some (headingStyleId l), ppr := [], nodes := [.ins rev (insRuns clean style suppress)] }
-        | none => { style := ppr.style, ppr := ppr.ppr, nodes := [.ins rev (insRuns clean style suppress)] }
+        | none => { style := ppr.style, ppr := copyPPr ppr.ppr, nodes := [.ins rev (insRuns clean style suppress)] }
       (s1, bs ++ [.para p])) (s, [])
 
 end Adeu.Doc
